@@ -48,6 +48,11 @@ Definition lookup_h (t : table) (p : nat) : option hent := find (fun h => covers
 
 Definition is_cache (i : instr) : bool := match i with ICache => true | _ => false end.
 
+(* number of inline CACHE units that follow unit p *)
+Fixpoint ncaches_from (l : list instr) : nat :=
+  match l with ICache :: r => S (ncaches_from r) | _ => 0 end.
+Definition ncaches (c : code) (p : nat) : nat := ncaches_from (skipn (S p) c).
+
 (* indices of the units that `dis.get_instructions(code)` (show_caches=False) reports *)
 Definition insns (c : code) : list nat :=
   filter (fun p => negb (is_cache (at_ c p))) (seq 0 (length c)).
